@@ -485,13 +485,18 @@ struct Sim {
     /// when set, a `transfer` whose destination is an account is sent to a MUXED address (account +
     /// mux id) with 40 % probability; the chosen id is recorded in the op line (`lu=`)
     mux: Option<Rng>,
+    /// the host's max_entry_ttl of this sequence
+    max_ttl: u32,
 }
 
 impl Sim {
     /// fresh token + identity verifier + REAL compliance contract (token bound, no module
     /// registered) + K mock modules
     fn new(min_temp: u32, start: u32, admin: usize) -> Sim {
-        let e = new_env(start, min_temp, MAX_TTL);
+        Self::new_ttl(min_temp, start, admin, MAX_TTL)
+    }
+    fn new_ttl(min_temp: u32, start: u32, admin: usize, max_ttl: u32) -> Sim {
+        let e = new_env(start, min_temp, max_ttl);
         // accounts first (generated through the muxed-address generator, the only public way to get
         // an account address), then contract addresses
         let mut u = Universe::new(&e, 0);
@@ -507,7 +512,7 @@ impl Sim {
         let modules: Vec<Address> = (0..K).map(|_| e.register(Module, (comp.clone(),))).collect();
         let tok = e.register(Tok, (u.a(admin).clone(), comp.clone(), idv.clone()));
         call_all_auth(&e, &comp, "bind_token", args(&e, [v(&e, &tok), v(&e, u.a(admin))])).expect("bind");
-        let mut s = Sim { e, u, tok, idv, comp, modules, admin, now: start, min_temp, snap: Snap::default(), mux: None };
+        let mut s = Sim { e, u, tok, idv, comp, modules, admin, now: start, min_temp, snap: Snap::default(), mux: None, max_ttl };
         s.snap = s.read();
         s
     }
@@ -785,7 +790,7 @@ impl Sim {
     }
     fn advance(&mut self, t: &mut Trace, n: u32) {
         self.now += n;
-        set_ledger(&self.e, self.now, self.min_temp, MAX_TTL);
+        set_ledger(&self.e, self.now, self.min_temp, self.max_ttl);
         t.op(&format!("rwa advance n={}", n));
         self.observe(t, true, "-", "-".into(), "-".into());
     }
@@ -1237,6 +1242,40 @@ fn scenario_modules_directed(t: &mut Trace) {
 /// `FungibleToken::transfer` takes a `MuxedAddress`: a destination carrying a mux id must go
 /// through the same gates, move the same balance, notify the compliance contract and its modules
 /// exactly once, and emit a `transfer` event whose `to` is the underlying account
+/// Long idle periods: balances, frozen amounts, address-freeze flags, the pause flag, the binding
+/// and the module registry must survive months without any access (a one-year max_entry_ttl keeps the
+/// unmodified code's persistent / instance entries live); the gates must still hold afterwards.
+fn scenario_long_idle(t: &mut Trace) {
+    const DAY: u32 = 17_280;
+    let mut s = Sim::new_ttl(16, 100, 0, 6_312_000);
+    t.seq(&s.label("directed long idle"));
+    s.single_module(t);
+    s.exec(t, "mint", &[1, 0], 1000, 0, false, &[0]);
+    s.exec(t, "mint", &[2, 0], 500, 0, false, &[0]);
+    s.exec(t, "mint", &[4, 0], 300, 0, false, &[0]);
+    s.exec(t, "freeze", &[1, 0], 600, 0, false, &[0]);
+    s.exec(t, "set_frozen", &[2, 0], 0, 0, true, &[0]);
+    s.advance(t, DAY);
+    s.exec(t, "transfer", &[2, 4], 1, 0, false, &[2]);
+    s.advance(t, 31 * DAY);
+    s.exec(t, "transfer", &[2, 4], 1, 0, false, &[2]);     // address still frozen
+    s.exec(t, "transfer", &[4, 2], 1, 0, false, &[4]);     // ... also as receiver
+    s.exec(t, "transfer", &[1, 4], 401, 0, false, &[1]);   // partial freeze still holds
+    s.exec(t, "transfer", &[1, 4], 400, 0, false, &[1]);
+    s.exec(t, "pause", &[0], 0, 0, false, &[0]);
+    s.advance(t, 100 * DAY);
+    s.exec(t, "transfer", &[4, 1], 1, 0, false, &[4]);     // still paused
+    s.exec(t, "unpause", &[0], 0, 0, false, &[0]);
+    s.exec(t, "transfer", &[2, 4], 1, 0, false, &[2]);
+    s.exec(t, "approve", &[2, 4], 50, s.now + 10, false, &[2]);
+    s.exec(t, "transfer_from", &[4, 2, 4], 5, 0, false, &[4]);
+    s.exec(t, "set_frozen", &[2, 0], 0, 0, false, &[0]);
+    s.exec(t, "transfer", &[2, 4], 1, 0, false, &[2]);
+    s.exec(t, "burn", &[1, 0], 700, 0, false, &[0]);
+    s.advance(t, 31 * DAY);
+    s.exec(t, "transfer", &[4, 1], 7, 0, false, &[4]);
+}
+
 fn scenario_muxed_directed(t: &mut Trace) {
     let mut s = Sim::new(1, 100, 0);
     t.seq(&s.label("directed muxed destination"));
@@ -1562,6 +1601,7 @@ fn main() {
     scenario_directed(&mut t);
     scenario_modules_directed(&mut t);
     scenario_muxed_directed(&mut t);
+    scenario_long_idle(&mut t);
     scenario_module_matrix(&mut t, &mut rng, if thorough { 16 } else { 6 });
     for _ in 0..(if thorough { 4 } else { 2 }) {
         scenario_single_gates(&mut t, &mut rng);
